@@ -13,7 +13,7 @@ import ast
 import re
 
 from ..model import AnalysisError, dotted
-from ..pse import NORMAL, Cfg, Enumerator, walk_with_locks
+from ..pse import NORMAL, Cfg, Enumerator, snap_canon, snapshot_names, walk_with_locks
 from ..threads import ThreadCfg, guarded_by, lock_aliases
 
 LEVEL_TEXT = (
@@ -59,7 +59,17 @@ def revalidate_head(ctx, RV, gpaths, ci):
             npop += 1
             acq = max([j for j, e in enumerate(p.evs[:i]) if e.kind == "acquire"], default=None)
             conds = [e for e in p.evs[(acq or 0) : i] if e.kind == "cond" and e.extra.get("truth")]
-            ident = [c for c in conds if re.fullmatch(r"self\._queue\[0\]\[0\] is \w+'|\w+' is self\._queue\[0\]\[0\]", c.text)]
+            # frozen locals are read through what they are snapshots of: the element component of the head read earlier
+            snaps = snapshot_names(p.evs[:i])
+            cur = "self._queue[0][0]"
+            ident = []
+            for c in conds:
+                mm = re.fullmatch(r"(.+) is (.+)", c.text)
+                if mm:
+                    a, b = (snap_canon(x, snaps) for x in mm.groups())
+                    if {a, b} == {cur, f"snap<{cur}>"}:
+                        ident.append(c)
+            validated = {n for c in ident for n in re.findall(r"\w+'", c.text)}
             ctx.check(
                 acq is not None and bool(ident),
                 RV,
@@ -70,8 +80,8 @@ def revalidate_head(ctx, RV, gpaths, ci):
                 f"{ci.module.relpath}:{p.evs[i].line}",
                 {"conds_in_section": [c.text for c in conds]},
             )
-            ret = [e for e in p.evs[i:] if e.kind == "return"]
-            ctx.check(bool(ret) and ret[0].text.endswith("'"), RV, f"{CLS}.get returns the validated head", "get() does not return the element it validated", f"{ci.module.relpath}:{p.evs[i].line}")
+            ret = [e for e in p.evs[i:] if e.kind == "return" and e.depth == 0]  # of get() itself, not of a helper inlined into it
+            ctx.check(bool(ret) and snap_canon(ret[0].text, snaps) == f"snap<{cur}>" and set(re.findall(r"\w+'", ret[0].text)) <= validated, RV, f"{CLS}.get returns the validated head", "get() does not return the element it validated", f"{ci.module.relpath}:{p.evs[i].line}")
     if npop == 0:
         raise AnalysisError("anchor vanished: no popleft in DelayedQueue.get")
 
@@ -654,14 +664,17 @@ def run(ctx) -> None:
 
     # ---------------------------------------------------------------- FIFO ops
     ops = {}
+    # an operation made in a private helper belongs to the public operations that reach the helper through self-calls
+    own = P.public_owners(CLS)
+    owners = own.__getitem__
     for m, fi in ci.methods.items():
         for n in ast.walk(fi.node):
             if isinstance(n, ast.Call) and isinstance(n.func, ast.Attribute) and dotted(n.func.value) == "self._queue":
-                ops.setdefault(n.func.attr, []).append(m)
+                ops.setdefault(n.func.attr, []).extend(owners(m))
             if isinstance(n, ast.Delete):
                 for t in n.targets:
                     if isinstance(t, ast.Subscript) and dotted(t.value) == "self._queue":
-                        ops.setdefault("del[]", []).append(m)
+                        ops.setdefault("del[]", []).extend(owners(m))
     ctx.extra["deque_ops"] = ops
     ctx.check(set(ops.get("append", [])) == {"put"} or ("put" in ops.get("append", [])), RF, "enqueue=append", f"put() does not enqueue with append ({ops})", ci.loc)
     ctx.check("get" in ops.get("popleft", []), RF, "dequeue=popleft", f"get() does not dequeue with popleft ({ops})", ci.loc)
